@@ -306,11 +306,23 @@ def _is_inf(v):
     return is_sym(v) and v.eq(INF)
 
 
+def _has_inf(v):
+    if _is_inf(v):
+        return True
+    return is_sym(v) and z3.is_app(v) and v.decl().kind() == z3.Z3_OP_ITE and (_has_inf(v.arg(1)) or _has_inf(v.arg(2)))
+
+
 def cmp(op, a, b):
     if _anyx(a, b):
         c = cmp(op, xval(a), xval(b))
         anyn = lor(xnan(a), xnan(b))
         return lor(anyn, c) if op == "!=" else land(lnot(anyn), c)
+    # a merged value ite(c, inf, x) (if-conversion): the comparison is taken per branch, so that the rule below applies
+    for side, v in (("a", a), ("b", b)):
+        if is_sym(v) and z3.is_app(v) and v.decl().kind() == z3.Z3_OP_ITE and (_has_inf(v.arg(1)) or _has_inf(v.arg(2))):
+            if side == "a":
+                return ite(v.arg(0), cmp(op, v.arg(1), b), cmp(op, v.arg(2), b))
+            return ite(v.arg(0), cmp(op, a, v.arg(1)), cmp(op, a, v.arg(2)))
     # np.inf: every other real of the model is finite (assumption, DESIGN §2.3)
     if _is_inf(a) or _is_inf(b):
         if _is_inf(a) and _is_inf(b):
